@@ -82,8 +82,9 @@ pub fn gen_group(rng: &mut Rng) -> WmoGroup {
     let nv = count(rng) * 3;
     WmoGroup { header: WmoGroupHeader { flags: WmoGroupFlags::from_bits_truncate(rng.u32() & 0x3FFFF), bounding_box: bb(rng), name_offset: rng.below(40) as u32, group_index: rng.below(9) as u32 }, materials: vec![],
         vertices: (0..nv).map(|_| v3(rng)).collect(), normals: if rng.chance(2, 3) { (0..nv).map(|_| v3(rng)).collect() } else { vec![] }, tex_coords: (0..nv).map(|_| TexCoord { u: f(rng), v: f(rng) }).collect(),
-        batches: (0..count(rng)).map(|_| WmoBatch { flags: [0; 10], material_id: rng.below(4) as u16, start_index: 0, count: nv as u16, start_vertex: 0, end_vertex: nv.saturating_sub(1) as u16, use_large_material_id: false }).collect(),
-        indices: (0..nv).map(|i| i as u16).collect(), vertex_colors: if rng.chance(1, 2) { Some((0..nv).map(|_| col(rng)).collect()) } else { None }, bsp_nodes: None, liquid: None,
+        batches: (0..count(rng)).map(|_| WmoBatch { flags: [0; 10], material_id: rng.below(4) as u16, start_index: 0, count: if rng.chance(1, 5) { 0 } else { nv as u16 }, start_vertex: 0, end_vertex: nv.saturating_sub(1) as u16, use_large_material_id: false }).collect(),
+        // index list longer than what the batches draw (collision-only triangles follow the rendered ones)
+        indices: (0..nv + [0usize, 0, 3, 6, 9][rng.below(5) as usize]).map(|i| (i % nv.max(1)) as u16).collect(), vertex_colors: if rng.chance(1, 2) { Some((0..nv).map(|_| col(rng)).collect()) } else { None }, bsp_nodes: None, liquid: None,
         doodad_refs: if rng.chance(1, 2) { Some((0..count(rng)).map(|_| rng.below(30) as u16).collect()) } else { None } }
 }
 
@@ -123,6 +124,12 @@ pub fn run(ctx: &mut Ctx) {
             Err(e) => { bad = true; ctx.out.oracle(false, "own-root-does-not-parse", &format!("{e} :: {desc}")); }
             Ok(p) => {
                 for ((n, a), (_, b)) in canon(&root).iter().zip(canon(&p).iter()) { if a != b { bad = true; ctx.out.oracle(false, if arb && n == "doodad definitions" { "doodad-names-not-representable" } else { "parsed-root-content-differs" }, &format!("{n}: wrote {} parsed {} :: {desc}", &a[..a.len().min(160)], &b[..b.len().min(160)])); break; } }
+                // the bounds stored in the header chunk are the object's (read from the bytes: the root parser re-derives its own)
+                if let Some(pos) = bytes.windows(4).position(|w| w == b"DHOM") { if pos + 8 + 60 <= bytes.len() {
+                    let rd = |o: usize| f32::from_le_bytes([bytes[pos + 8 + o], bytes[pos + 9 + o], bytes[pos + 10 + o], bytes[pos + 11 + o]]).to_bits();
+                    let stored = [rd(36), rd(40), rd(44), rd(48), rd(52), rd(56)];
+                    let want = [root.bounding_box.min.x.to_bits(), root.bounding_box.min.y.to_bits(), root.bounding_box.min.z.to_bits(), root.bounding_box.max.x.to_bits(), root.bounding_box.max.y.to_bits(), root.bounding_box.max.z.to_bits()];
+                    if stored != want { bad = true; ctx.out.oracle(false, "header-bounds-differ-from-object", &format!("stored {:?} object {:?} :: {desc}", stored.map(f32::from_bits), want.map(f32::from_bits))); } } }
                 if let Some(c) = counts_ok(&p) { bad = true; ctx.out.oracle(false, "header-count-differs-from-list", &format!("{c} :: {desc}")); }
                 match write_root(&p, ver) { Ok(b2) => if b2 != bytes { bad = true; ctx.out.oracle(false, if arb && !root.doodad_defs.is_empty() { "doodad-names-not-representable" } else { "second-root-write-differs" }, &format!("{} vs {} bytes :: {desc}", b2.len(), bytes.len())); }, Err(e) => { bad = true; ctx.out.oracle(false, "second-root-write-fails", &format!("{e} :: {desc}")); } }
                 // conversion: same version changes nothing; another version keeps everything representable in both
@@ -150,6 +157,10 @@ pub fn run(ctx: &mut Ctx) {
         let Some(subs) = walk(&gbytes, gt[1].1 + 8 + 36, gbytes.len()) else { ctx.out.oracle(false, "group-sub-chunks-do-not-tile-chunk", &gdesc); continue; };
         let sl = if subs.is_empty() { "-".to_string() } else { subs.iter().map(|s| format!("{}:{}", s.0, s.2)).collect::<Vec<_>>().join(",") };
         ctx.out.case(&format!("c15group {sl}"), &format!("MOVT={} MOVI={} MONR={} MOTV={} MOCV={} MOBA={} MODR={}", g.vertices.len(), g.indices.len(), g.normals.len(), g.tex_coords.len(), g.vertex_colors.as_ref().map(|c| c.len()).unwrap_or(0), g.batches.len(), g.doodad_refs.as_ref().map(|c| c.len()).unwrap_or(0)));
+        // (I) the element counts read straight from the sub-chunk sizes are the object's
+        { let cnt = |id: &str, el: usize| subs.iter().find(|s| s.0 == id).map(|s| s.2 / el).unwrap_or(0);
+          for (id, el, want) in [("MOVT", 12usize, g.vertices.len()), ("MOVI", 2, g.indices.len()), ("MONR", 12, g.normals.len()), ("MOTV", 8, g.tex_coords.len()), ("MOBA", 24, g.batches.len())] {
+              ctx.out.oracle(cnt(id, el) == want, "group-list-not-written-in-full", &format!("{id}: {} elements in the file, {want} in the object :: {gdesc}", cnt(id, el))); } }
         // the crate's own group reader on the crate's own group writer's bytes
         let gb2 = gbytes.clone();
         match std::panic::catch_unwind(move || wow_wmo::parse_wmo(&mut Cursor::new(gb2))) {
